@@ -131,7 +131,7 @@ def GoodChan (w : WS) (c : Chan) : Prop :=
 def Good (s : St) : Prop :=
   (s.ws.active = true → s.ws.pat.isSome = true) ∧ ∀ c ∈ s.chans, GoodChan s.ws c
 
-theorem good_init (proj : List Bool) (pre : List Run) : Good (St.init proj pre) := by
+theorem good_init (proj : List Bool) (pre : List Run) (nums : List Int) : Good (St.init proj pre nums) := by
   refine ⟨by simp [St.init], ?_⟩
   intro c hc
   simp only [St.init, List.mem_map] at hc
@@ -254,7 +254,7 @@ theorem goodChan_start (w : WS) (c : Chan) (hw : c.hasWriter = false) (r : Run) 
 /-- a rejected request leaves the whole state (reported state, channels, directories, files) unchanged -/
 theorem C06_rejected_is_noop (s : St) (op : Op) (h : (step s op).2 = true) : (step s op).1 = s := by
   cases op with
-  | req r path l22 off l3 =>
+  | req r path l22 off l3 map =>
     simp only [step] at h ⊢
     cases hc : classify r with
     | pause => simp [hc] at h
@@ -269,7 +269,7 @@ theorem C06_rejected_is_noop (s : St) (op : Op) (h : (step s op).2 = true) : (st
     | start =>
       simp only [hc] at h ⊢
       unfold startReq at h ⊢
-      cases ht : startTarget s path l22 off l3 with
+      cases ht : startTarget s path l22 off l3 map with
       | none => rfl
       | some r => simp [ht] at h
   | pub counts => simp [step] at h
@@ -292,11 +292,11 @@ theorem firstUnused_spec (dirs : List Run) (pid : Nat) : ∀ (fuel i n : Nat),
       intro hm
       exact hc (List.contains_iff_mem.mpr hm)
 
-theorem startTarget_some (s : St) (path : Option Nat) (l22 off l3 : Bool) (r : Run)
-    (h : startTarget s path l22 off l3 = some r) :
+theorem startTarget_some (s : St) (path : Option Nat) (l22 off l3 : Bool) (map : Option Nat) (r : Run)
+    (h : startTarget s path l22 off l3 map = some r) :
     (l22 || off || l3) = true ∧ (∀ c ∈ s.chans, c.hasWriter = false) ∧
       pathOr path s.ws.base = some r.pid ∧
-      makeDirectory s.dirs r.pid = some r.num := by
+      makeDirectory s.dirs r.pid = some r.num ∧ mapOk s map = true := by
   unfold startTarget at h
   by_cases h1 : (!(l22 || off || l3)) = true
   · rw [if_pos h1] at h; cases h
@@ -307,28 +307,31 @@ theorem startTarget_some (s : St) (path : Option Nat) (l22 off l3 : Bool) (r : R
       by_cases h3 : (off && !s.chans.any (·.proj)) = true
       · rw [if_pos h3] at h; cases h
       · rw [if_neg h3] at h
-        cases hp : pathOr path s.ws.base with
-        | none => simp [hp] at h
-        | some p =>
-          simp only [hp] at h
-          cases hm : makeDirectory s.dirs p with
-          | none => simp [hm] at h
-          | some i =>
-            simp only [hm, Option.some.injEq] at h
-            subst h
-            refine ⟨by cases l22 <;> cases off <;> cases l3 <;> simp_all, ?_, rfl, hm⟩
-            intro c hc
-            simp only [List.any_eq_true, not_exists, not_and, Bool.not_eq_true] at h2
-            exact h2 c hc
+        by_cases h4 : (!mapOk s map) = true
+        · rw [if_pos h4] at h; cases h
+        · rw [if_neg h4] at h
+          cases hp : pathOr path s.ws.base with
+          | none => simp [hp] at h
+          | some p =>
+            simp only [hp] at h
+            cases hm : makeDirectory s.dirs p with
+            | none => simp [hm] at h
+            | some i =>
+              simp only [hm, Option.some.injEq] at h
+              subst h
+              refine ⟨by cases l22 <;> cases off <;> cases l3 <;> simp_all, ?_, rfl, hm, by simpa using h4⟩
+              intro c hc
+              simp only [List.any_eq_true, not_exists, not_and, Bool.not_eq_true] at h2
+              exact h2 c hc
 
 /-- what an accepted START does -/
-theorem startReq_ok (s : St) (path : Option Nat) (l22 off l3 : Bool) (s' : St)
-    (h : startReq s path l22 off l3 = (s', false)) :
-    ∃ r : Run, startTarget s path l22 off l3 = some r ∧
+theorem startReq_ok (s : St) (path : Option Nat) (l22 off l3 : Bool) (map : Option Nat) (s' : St)
+    (h : startReq s path l22 off l3 map = (s', false)) :
+    ∃ r : Run, startTarget s path l22 off l3 map = some r ∧
       s' = { s with chans := s.chans.map (·.start r l22 off l3), dirs := r :: s.dirs,
                     ws := { active := true, paused := false, base := some r.pid, pat := some r, l22, off, l3 } } := by
   unfold startReq at h
-  cases ht : startTarget s path l22 off l3 with
+  cases ht : startTarget s path l22 off l3 map with
   | none => simp [ht] at h
   | some r =>
     simp only [ht] at h
@@ -337,7 +340,7 @@ theorem startReq_ok (s : St) (path : Option Nat) (l22 off l3 : Bool) (s' : St)
 theorem good_step (s : St) (op : Op) (hg : Good s) : Good (step s op).1 := by
   obtain ⟨hp, hc⟩ := hg
   cases op with
-  | req r path l22 off l3 =>
+  | req r path l22 off l3 map =>
     simp only [step]
     cases hk : classify r with
     | pause =>
@@ -367,16 +370,16 @@ theorem good_step (s : St) (op : Op) (hg : Good s) : Good (step s op).1 := by
       simp [GoodChan, Chan.removeAll, WS.stop, Chan.hasWriter]
     | start =>
       simp only
-      cases hs : startReq s path l22 off l3 with
+      cases hs : startReq s path l22 off l3 map with
       | mk s' e =>
         cases e with
         | true =>
-          have := C06_rejected_is_noop s (.req r path l22 off l3) (by simp [step, hk, hs])
+          have := C06_rejected_is_noop s (.req r path l22 off l3 map) (by simp [step, hk, hs])
           simp only [step, hk, hs] at this
           rw [this]; exact ⟨hp, hc⟩
         | false =>
-          obtain ⟨run, ht, rfl⟩ := startReq_ok s path l22 off l3 s' hs
-          obtain ⟨_, hnw, _, _⟩ := startTarget_some s path l22 off l3 run ht
+          obtain ⟨run, ht, rfl⟩ := startReq_ok s path l22 off l3 map s' hs
+          obtain ⟨_, hnw, _, _, _⟩ := startTarget_some s path l22 off l3 map run ht
           refine ⟨by simp, ?_⟩
           intro c' h'
           simp only [List.mem_map] at h'
@@ -446,20 +449,20 @@ theorem agree_of_good (s : St) (hg : Good s) : Agree s := by
     · rw [if_neg hh] at h; cases h
 
 /-- **C06_agree_invariant**: `Agree` holds after every history, from every configuration. -/
-theorem C06_agree_invariant (proj : List Bool) (pre : List Run) (ops : List Op) :
-    Agree (runOps (St.init proj pre) ops) :=
-  agree_of_good _ (good_runOps ops _ (good_init proj pre))
+theorem C06_agree_invariant (proj : List Bool) (pre : List Run) (nums : List Int) (ops : List Op) :
+    Agree (runOps (St.init proj pre nums) ops) :=
+  agree_of_good _ (good_runOps ops _ (good_init proj pre nums))
 
 /-- **C06_stored_iff_reported**: after any history, a publication of `counts` records adds to every
 file exactly the records the REPORTED state demands (`expAll`: per eligible channel, enabled type,
 current run directory, iff active and not paused) — nothing more, nothing less, nowhere else. -/
-theorem C06_stored_iff_reported (proj : List Bool) (pre : List Run) (ops : List Op) (counts : List Nat)
+theorem C06_stored_iff_reported (proj : List Bool) (pre : List Run) (nums : List Int) (ops : List Op) (counts : List Nat)
     (k : FKey) :
-    let s := runOps (St.init proj pre) ops
+    let s := runOps (St.init proj pre nums) ops
     stored (step s (.pub counts)).1.files k =
       stored s.files k + expAll s.ws 0 (s.chans.map (·.elig)) counts k := by
   intro s
-  have hg : Good s := good_runOps ops _ (good_init proj pre)
+  have hg : Good s := good_runOps ops _ (good_init proj pre nums)
   show stored (pubAll 0 s.chans counts s.files).2 k = _
   rw [stored_pubAll, contribAll_eq_expAll s.ws s.chans 0 counts k hg.2]
 
@@ -495,8 +498,8 @@ theorem openFiles_removeAll (fs : Files) (cs : List Chan) : ∀ i,
 def Sim (o : OSt) (s : St) : Prop :=
   o.prev = obs s ∧ o.elig = s.chans.map (·.elig) ∧ o.proj = s.chans.map (·.proj) ∧ o.dirs = s.dirs
 
-theorem step_req_files (s : St) (r : List Nat) (path : Option Nat) (l22 off l3 : Bool) :
-    (step s (.req r path l22 off l3)).1.files = s.files := by
+theorem step_req_files (s : St) (r : List Nat) (path : Option Nat) (l22 off l3 : Bool) (map : Option Nat) :
+    (step s (.req r path l22 off l3 map)).1.files = s.files := by
   simp only [step]
   cases hk : classify r with
   | pause => rfl
@@ -506,15 +509,15 @@ theorem step_req_files (s : St) (r : List Nat) (path : Option Nat) (l22 off l3 :
   | stop => rfl
   | start =>
     simp only
-    cases hs : startReq s path l22 off l3 with
+    cases hs : startReq s path l22 off l3 map with
     | mk s' e =>
       cases e with
       | true =>
-        have := C06_rejected_is_noop s (.req r path l22 off l3) (by simp [step, hk, hs])
+        have := C06_rejected_is_noop s (.req r path l22 off l3 map) (by simp [step, hk, hs])
         simp only [step, hk, hs] at this
         rw [this]
       | false =>
-        obtain ⟨run, _, rfl⟩ := startReq_ok s path l22 off l3 s' hs
+        obtain ⟨run, _, rfl⟩ := startReq_ok s path l22 off l3 map s' hs
         rfl
 
 theorem map_start_elig (cs : List Chan) (r : Run) (l22 off l3 : Bool) :
@@ -531,9 +534,9 @@ theorem chk_step_model (o : OSt) (s : St) (op : Op) (hg : Good s) (hs : Sim o s)
     ∃ o', chkStep o op (step s op).2 (obs (step s op).1) = .ok o' ∧ Sim o' (step s op).1 := by
   obtain ⟨hprev, helig, hproj, hdirs⟩ := hs
   cases op with
-  | req r path l22 off l3 =>
+  | req r path l22 off l3 map =>
     have hfiles := step_req_files s r path l22 off l3
-    cases herr : (step s (.req r path l22 off l3)).2 with
+    cases herr : (step s (.req r path l22 off l3 map)).2 with
     | true =>
       have hno := C06_rejected_is_noop s _ herr
       rw [hno]
@@ -542,21 +545,21 @@ theorem chk_step_model (o : OSt) (s : St) (op : Op) (hg : Good s) (hs : Sim o s)
         ⟨by rw [hprev], sameFiles_of_eq _ _ (by rw [hprev]; intro k; rfl)⟩
       simp only [chkStep, if_true, if_pos hcond]
     | false =>
-      have hsame : sameFiles o.prev.files (obs (step s (.req r path l22 off l3)).1).files = true :=
+      have hsame : sameFiles o.prev.files (obs (step s (.req r path l22 off l3 map)).1).files = true :=
         sameFiles_of_eq _ _ (by rw [hprev]; intro k; show stored s.files k = stored (step s _).1.files k; rw [hfiles])
       simp only [chkStep, Bool.false_eq_true, if_false, hsame, Bool.not_true]
       cases hk : classify r with
       | start =>
         simp only
-        have hst : step s (.req r path l22 off l3) = startReq s path l22 off l3 := by simp [step, hk]
+        have hst : step s (.req r path l22 off l3 map) = startReq s path l22 off l3 map := by simp [step, hk]
         rw [hst] at herr ⊢
-        cases hs' : startReq s path l22 off l3 with
+        cases hs' : startReq s path l22 off l3 map with
         | mk s' e =>
           rw [hs'] at herr
           simp only at herr
           subst herr
-          obtain ⟨run, ht, rfl⟩ := startReq_ok s path l22 off l3 s' hs'
-          obtain ⟨_, _, hpath, hmk⟩ := startTarget_some s path l22 off l3 run ht
+          obtain ⟨run, ht, rfl⟩ := startReq_ok s path l22 off l3 map s' hs'
+          obtain ⟨_, _, hpath, hmk, _⟩ := startTarget_some s path l22 off l3 map run ht
           have hfresh := (firstUnused_spec s.dirs run.pid 10000 0 run.num hmk).1
           simp only [obs]
           have hpb : pathOr path o.prev.ws.base = some run.pid := by
@@ -572,7 +575,7 @@ theorem chk_step_model (o : OSt) (s : St) (op : Op) (hg : Good s) (hs : Sim o s)
             | inr hh => exact hh rfl
       | stop =>
         simp only
-        have hst : (step s (.req r path l22 off l3)).1 =
+        have hst : (step s (.req r path l22 off l3 map)).1 =
             { s with chans := s.chans.map (·.removeAll), ws := s.ws.stop } := by simp [step, hk]
         rw [hst]
         have hf : (obs { s with chans := s.chans.map (·.removeAll), ws := s.ws.stop }).fds = 0 := by
@@ -583,7 +586,7 @@ theorem chk_step_model (o : OSt) (s : St) (op : Op) (hg : Good s) (hs : Sim o s)
         · simp only [List.map_map]; rw [hproj]; apply List.map_congr_left; intro c _; rfl
       | pause =>
         simp only
-        have hst : (step s (.req r path l22 off l3)).1 =
+        have hst : (step s (.req r path l22 off l3 map)).1 =
             { s with chans := s.chans.map (·.setPause true), ws := { s.ws with paused := true } } := by
           simp [step, hk]
         rw [hst]
@@ -592,7 +595,7 @@ theorem chk_step_model (o : OSt) (s : St) (op : Op) (hg : Good s) (hs : Sim o s)
         · simp only [List.map_map]; rw [hproj]; apply List.map_congr_left; intro c _; rfl
       | unpause lbl =>
         simp only
-        have hst : (step s (.req r path l22 off l3)).1 =
+        have hst : (step s (.req r path l22 off l3 map)).1 =
             { s with chans := s.chans.map (·.setPause false), ws := { s.ws with paused := false } } := by
           simp only [step, hk] at herr ⊢
           split at herr
@@ -641,9 +644,9 @@ PAUSE before START, START while active, UNPAUSE with labels, malformed requests)
 projector loads, the model's observable behaviour passes the property oracle at every step:
 records are stored exactly as the reported state says, rejected requests change nothing, every
 accepted START reports a fresh run directory under the requested path, STOP leaves no file open. -/
-theorem C06_agree_all_histories (proj : List Bool) (pre : List Run) (ops : List Op) :
-    ∃ o', chkRun (OSt.init proj pre) ops (runModel (St.init proj pre) ops) = .ok o' := by
-  apply chk_run_model ops _ _ (good_init proj pre)
+theorem C06_agree_all_histories (proj : List Bool) (pre : List Run) (nums : List Int) (ops : List Op) :
+    ∃ o', chkRun (OSt.init proj pre) ops (runModel (St.init proj pre nums) ops) = .ok o' := by
+  apply chk_run_model ops _ _ (good_init proj pre nums)
   refine ⟨rfl, ?_, ?_, rfl⟩
   · show proj.map (fun _ => false) = (proj.map Chan.new).map (·.elig)
     induction proj with
@@ -657,28 +660,28 @@ theorem C06_agree_all_histories (proj : List Bool) (pre : List Run) (ops : List 
 /-- **C06_start_fresh_dir**: an accepted START (from ANY state) creates a run directory that did not
 exist, under the requested path (or the remembered base path), reports it as the file pattern, and
 reports active / not paused / exactly the requested file types. -/
-theorem C06_start_fresh_dir (s s' : St) (r : List Nat) (path : Option Nat) (l22 off l3 : Bool)
-    (hk : classify r = .start) (h : step s (.req r path l22 off l3) = (s', false)) :
+theorem C06_start_fresh_dir (s s' : St) (r : List Nat) (path : Option Nat) (l22 off l3 : Bool) (map : Option Nat)
+    (hk : classify r = .start) (h : step s (.req r path l22 off l3 map) = (s', false)) :
     ∃ run : Run, s'.ws.pat = some run ∧ run ∉ s.dirs ∧ run ∈ s'.dirs ∧
       some run.pid = pathOr path s.ws.base ∧
       s'.ws.active = true ∧ s'.ws.paused = false ∧
       s'.ws.l22 = l22 ∧ s'.ws.off = off ∧ s'.ws.l3 = l3 ∧ s'.files = s.files := by
-  have hst : step s (.req r path l22 off l3) = startReq s path l22 off l3 := by simp [step, hk]
+  have hst : step s (.req r path l22 off l3 map) = startReq s path l22 off l3 map := by simp [step, hk]
   rw [hst] at h
-  obtain ⟨run, ht, rfl⟩ := startReq_ok s path l22 off l3 s' h
-  obtain ⟨_, _, hpath, hmk⟩ := startTarget_some s path l22 off l3 run ht
+  obtain ⟨run, ht, rfl⟩ := startReq_ok s path l22 off l3 map s' h
+  obtain ⟨_, _, hpath, hmk, _⟩ := startTarget_some s path l22 off l3 map run ht
   refine ⟨run, rfl, (firstUnused_spec s.dirs run.pid 10000 0 run.num hmk).1, by simp, hpath.symm,
     rfl, rfl, rfl, rfl, rfl, rfl⟩
 
 /-- **C06_stop_closes_all**: STOP (from ANY state) is accepted, leaves no writer on any channel, no
 open file, reports inactive with an empty pattern, and does not touch the stored records. -/
-theorem C06_stop_closes_all (s : St) (r : List Nat) (path : Option Nat) (l22 off l3 : Bool)
+theorem C06_stop_closes_all (s : St) (r : List Nat) (path : Option Nat) (l22 off l3 : Bool) (map : Option Nat)
     (hk : classify r = .stop) :
-    ∀ s' e, step s (.req r path l22 off l3) = (s', e) →
+    ∀ s' e, step s (.req r path l22 off l3 map) = (s', e) →
     e = false ∧ (∀ c ∈ s'.chans, c.hasWriter = false) ∧
       s'.ws.active = false ∧ s'.ws.pat = none ∧ (obs s').fds = 0 ∧ s'.files = s.files := by
   intro s' e h
-  have hst : step s (.req r path l22 off l3) =
+  have hst : step s (.req r path l22 off l3 map) =
       ({ s with chans := s.chans.map (·.removeAll), ws := s.ws.stop }, false) := by simp [step, hk]
   rw [hst] at h
   obtain ⟨rfl, rfl⟩ := Prod.mk.inj h
@@ -688,6 +691,23 @@ theorem C06_stop_closes_all (s : St) (r : List Nat) (path : Option Nat) (l22 off
   obtain ⟨c0, _, rfl⟩ := hc
   simp [Chan.removeAll, Chan.hasWriter]
 
+/-- **C06_bad_map_refused**: a START that arrives with a pixel map of the wrong length, or with a map
+that has no pixel for some channel's number (whichever channel it is), is refused from ANY state and
+changes nothing at all: no directory, no writer, no reported change (every check precedes the first change). -/
+theorem C06_bad_map_refused (s : St) (r : List Nat) (path : Option Nat) (l22 off l3 : Bool) (map : Option Nat)
+    (hk : classify r = .start) (hm : mapOk s map = false) :
+    step s (.req r path l22 off l3 map) = (s, true) := by
+  have ht : startTarget s path l22 off l3 map = none := by
+    unfold startTarget
+    split
+    · rfl
+    · split
+      · rfl
+      · split
+        · rfl
+        · simp [hm]
+  simp [step, hk, startReq, ht]
+
 /-! ### Non-vacuity: concrete histories (requests as byte strings) -/
 
 def reqSTART : List Nat := sSTART
@@ -695,18 +715,26 @@ def reqSTOP : List Nat := sSTOP
 
 /-- OFF-only START after a PAUSE that preceded it: the channel with projectors stores, the other not -/
 example :
-    let s := runOps (St.init [true, false] [⟨0, 0⟩])
-      [.req sPAUSE none false false false, .req sSTART (some 0) false true false, .pub [3, 5]]
+    let s := runOps (St.init [true, false] [⟨0, 0⟩] [1, 2])
+      [.req sPAUSE none false false false none, .req sSTART (some 0) false true false (some 2), .pub [3, 5]]
     stored s.files ⟨⟨0, 1⟩, 0, .off⟩ = 3 ∧ stored s.files ⟨⟨0, 1⟩, 1, .off⟩ = 0 ∧
       s.ws.active = true ∧ s.ws.paused = false := by decide
 
 /-- a paused run stores nothing; a second START while active is rejected -/
 example :
-    let s := runOps (St.init [false] [])
-      [.req sSTART (some 1) true false true, .pub [2], .req sPAUSE none false false false, .pub [4],
-       .req sSTART (some 1) true false false]
+    let s := runOps (St.init [false] [] [1])
+      [.req sSTART (some 1) true false true none, .pub [2], .req sPAUSE none false false false none, .pub [4],
+       .req sSTART (some 1) true false false none]
     stored s.files ⟨⟨1, 0⟩, 0, .ljh22⟩ = 2 ∧ stored s.files ⟨⟨1, 0⟩, 0, .ljh3⟩ = 2 ∧ s.dirs = [⟨1, 0⟩] := by
   decide
+
+/-- channel numbers {1,2,9,3} against a 4-pixel map: the offending channel is not the first; refused,
+nothing changes, and a following START without map is accepted into run 0 -/
+example :
+    let s0 := St.init [false, false, false, false] [] [1, 2, 9, 3]
+    step s0 (.req sSTART (some 0) true false false (some 4)) = (s0, true) ∧
+      (step s0 (.req sSTART (some 0) true false false none)).2 = false ∧
+      mapOk (St.init [false, false, false] [] [3, 1, 2]) (some 3) = true := by decide
 
 example : classify [117, 110, 112, 97, 117, 115, 101, 32, 65] = .unpause (some [65]) := by decide
 example : classify (sUNPAUSE ++ [120]) = .unpauseBad := by decide
